@@ -246,6 +246,12 @@ class Ghost:
         raise OutsideSubset(f"int() of {type(v).__name__} at {self.I.where(node)}")
 
     def str_of(self, v, node):
+        if isinstance(v, ObjV) and v.cls.builtin and v.cls.name in ("IPv4Address", "IPv6Address"):
+            # the textual form of an address is determined by, and determines, the address
+            txt = self.I.builtins.get("IPText")
+            if txt is None:
+                txt = self.I.builtins["IPText"] = ClassV("IPText", [], {}, builtin=True)
+            return ObjV(txt, {"packed": v.fields["packed"], "version": v.cls.name})
         return "<str>"
 
     def list_of_seq(self, v, node):
